@@ -56,3 +56,17 @@ Theorem sensitive_headers_only_to_original_origin : forall cfg legacy method uri
          (tl (fst (run cfg legacy method uri hs resps))).
 Proof. exact run_sensitive. Qed.
 Print Assumptions sensitive_headers_only_to_original_origin.
+
+(** several chains in flight through ONE agent, their pending requests answered in ANY interleaving
+    ([sched] says which chain is answered next): the agent carries no state of its own - everything
+    a chain needs travels in its own Deferred's callback arguments - so each chain ends exactly as
+    if it had run alone against the responses it was given; every theorem above therefore holds per
+    chain whatever else goes on through the same agent *)
+Theorem interleaving_of_chains_cannot_matter : forall cfg sched chains j m u hs resps,
+  nth_error chains j = Some (m, u, hs, resps) ->
+  let sts := map (fun c : bytes * bytes * option headers * list response =>
+                    let '(m, u, hs, resps) := c in c_start m u hs resps) chains in
+  exists st, nth_error (sched_run cfg sched sts) j = Some st
+             /\ (c_reqs st, c_out st) = run cfg false m u hs (firstn (count_occ PeanoNat.Nat.eq_dec sched j) resps).
+Proof. exact interleaving_independent. Qed.
+Print Assumptions interleaving_of_chains_cannot_matter.
